@@ -14,8 +14,8 @@ import (
 	authsigning "github.com/cosmos/cosmos-sdk/x/auth/signing"
 	authtx "github.com/cosmos/cosmos-sdk/x/auth/tx"
 	"github.com/ethereum/go-ethereum/common"
-	"github.com/ethereum/go-ethereum/crypto"
 	ethtypes "github.com/ethereum/go-ethereum/core/types"
+	"github.com/ethereum/go-ethereum/crypto"
 	"github.com/ethereum/go-ethereum/signer/core/apitypes"
 
 	"github.com/haqq-network/haqq/ethereum/eip712"
@@ -32,7 +32,9 @@ type TxOpts struct {
 	Seq      *uint64  // nil: current sequence from state
 	ChainID  string   // "": this chain
 	Memo     string
-	EIP712   bool
+	EIP712   bool // legacy Web3 extension route
+	// EIP712Direct: plain Cosmos route, signature over the EIP-712 form of the sign doc
+	EIP712Direct bool
 	Timeout  uint64
 	ExtOpts  []*codectypes.Any
 }
@@ -70,6 +72,9 @@ func (w *World) AccountNumSeq(addr sdk.AccAddress) (uint64, uint64, bool) {
 func (w *World) BuildCosmosTx(a *Account, o TxOpts, msgs ...sdk.Msg) ([]byte, error) {
 	if o.Gas == 0 {
 		o.Gas = 3_000_000
+		if mg := w.Cfg.BlockMaxGas; mg > 0 && int64(o.Gas) > mg {
+			o.Gas = uint64(mg)
+		}
 	}
 	price := o.GasPrice
 	if price == nil {
@@ -91,7 +96,10 @@ func (w *World) BuildCosmosTx(a *Account, o TxOpts, msgs ...sdk.Msg) ([]byte, er
 		fee = sdk.NewCoins(sdk.NewCoin(Denom, sdkmath.NewIntFromBigInt(new(big.Int).Mul(price, new(big.Int).SetUint64(o.Gas)))))
 	}
 	if o.EIP712 {
-		return w.buildEIP712(a, o, chainID, accNum, seq, fee, msgs)
+		if bz, err := w.buildEIP712(a, o, chainID, accNum, seq, fee, msgs); err == nil {
+			return bz, nil
+		}
+		// message type not expressible as legacy typed data: sign normally
 	}
 	tb := w.TxConfig().NewTxBuilder()
 	if err := tb.SetMsgs(msgs...); err != nil {
@@ -111,7 +119,28 @@ func (w *World) BuildCosmosTx(a *Account, o TxOpts, msgs ...sdk.Msg) ([]byte, er
 		return nil, err
 	}
 	sd := authsigning.SignerData{ChainID: chainID, AccountNumber: accNum, Sequence: seq}
-	sig, err := clienttx.SignWithPrivKey(signing.SignMode_SIGN_MODE_DIRECT, sd, tb, a.Priv, w.TxConfig(), seq)
+	var err error
+	if o.EIP712Direct {
+		// SIGN_MODE_DIRECT envelope whose signature is made over the EIP-712
+		// representation of the sign doc (accepted by ethsecp256k1.VerifySignature)
+		signBytes, e1 := w.TxConfig().SignModeHandler().GetSignBytes(signing.SignMode_SIGN_MODE_DIRECT, sd, tb.GetTx())
+		if e1 != nil {
+			return nil, e1
+		}
+		typed, e2 := eip712.GetEIP712BytesForMsg(signBytes)
+		if e2 == nil {
+			sigBz, e3 := a.Priv.Sign(typed)
+			if e3 != nil {
+				return nil, e3
+			}
+			sig = signing.SignatureV2{PubKey: a.Priv.PubKey(), Data: &signing.SingleSignatureData{SignMode: signing.SignMode_SIGN_MODE_DIRECT, Signature: sigBz}, Sequence: seq}
+			if err := tb.SetSignatures(sig); err != nil {
+				return nil, err
+			}
+			return w.TxConfig().TxEncoder()(tb.GetTx())
+		}
+	}
+	sig, err = clienttx.SignWithPrivKey(signing.SignMode_SIGN_MODE_DIRECT, sd, tb, a.Priv, w.TxConfig(), seq)
 	if err != nil {
 		return nil, err
 	}
@@ -128,7 +157,10 @@ func (w *World) buildEIP712(a *Account, o TxOpts, chainID string, accNum, seq ui
 	}
 	stdFee := legacytx.NewStdFee(o.Gas, fee) //nolint:staticcheck
 	data := legacytx.StdSignBytes(chainID, accNum, seq, o.Timeout, stdFee, msgs, o.Memo, nil)
-	typed, err := eip712.WrapTxToTypedData(pc.Uint64(), data)
+	if len(msgs) == 0 {
+		return nil, fmt.Errorf("no msgs")
+	}
+	typed, err := eip712.LegacyWrapTxToTypedData(w.Enc.Codec, pc.Uint64(), msgs[0], data, &eip712.FeeDelegationOptions{FeePayer: a.Acc})
 	if err != nil {
 		return nil, err
 	}
